@@ -31,6 +31,8 @@ def texpr(t, f=None):
         out = {'k': 'attr', 'of': texpr(t['of'])}
     else:
         raise ValueError(t)
+    if f is not None and 'sub' in f:
+        out['sub_name'] = f['sub']
     if f is not None and k != 'attr':
         if f['min'] != 0:
             out['min'] = f['min']
@@ -120,13 +122,14 @@ def to_wire_value(t, v):
     raise ValueError(t)
 
 
-def to_instance(gen, t, v, texp=None):
-    """TLA value -> what user code returns: Spyne instances for objects"""
+def to_instance(gen, t, v, texp=None, memo=None):
+    """TLA value -> what user code returns: Spyne instances for objects (memo: ONE instance per equal object value - a value
+    that occurs twice is then the same Python object referenced twice)"""
     if v == ['nil']:
         return None
     k = t['k']
     if v[0] == 'seq' and k != 'arr':
-        return [to_instance(gen, t, x) for x in v[1]]
+        return [to_instance(gen, t, x, memo=memo) for x in v[1]]
     if k == 'prim':
         x = leaf_native(t['p'], v[1])
         # (a ByteArray value is a sequence of chunks whose concatenation is the value: hand it over in two uneven chunks)
@@ -134,11 +137,17 @@ def to_instance(gen, t, v, texp=None):
     if k == 'attr':
         return leaf_native(t['of']['p'], v[1])
     if k == 'arr':
-        return [to_instance(gen, t['of'], x) for x in v[1]]
+        return [to_instance(gen, t['of'], x, memo=memo) for x in v[1]]
     if k == 'obj':
+        key = json.dumps([t['ns'], t['name'], v], sort_keys=True)
+        if memo is not None and key in memo:
+            return memo[key]
         rt = runtime(t, v)
         cls = gen.cls(texpr(rt))
-        return cls(**{f['n']: to_instance(gen, f['t'], x) for f, x in zip(flat_fields(rt), v[2])})
+        o = cls(**{f['n']: to_instance(gen, f['t'], x, memo=memo) for f, x in zip(flat_fields(rt), v[2])})
+        if memo is not None:
+            memo[key] = o
+        return o
     raise ValueError(t)
 
 
